@@ -110,23 +110,23 @@ MemAtWrites(m, steps, from) ==
   IN [k \in 1 .. Len(idx) |->
         LET P == {x \in Ms : x < idx[k]} IN IF P = {} THEN m ELSE ApplyMem(m, steps[SetMax(P)])]
 
+\* (TLC may re-evaluate a LET definition at every use: the new disk is assigned to cur' FIRST
+\*  and read back from there)
 StepOp(e) ==
-  LET d  == DiskAtEnd
-      m  == [base |-> e.mem0.base, height |-> e.mem0.height]
-      pr == Predicted(e, d, m)
+  LET m  == [base |-> e.mem0.base, height |-> e.mem0.height]
       js == e.journal
-  IN /\ disk0' = d /\ cur' = d /\ curk' = 0
+  IN /\ cur' = DiskAtEnd /\ disk0' = cur' /\ curk' = 0
      /\ mem0' = m
-     /\ opl' = l
-     /\ UNCHANGED <<cfg, stack, bad>>
-     /\ drift' = drift
+     /\ LET pr == Predicted(e, cur', m) IN
+       drift' = drift
           \cup FailIf(Writes(pr.steps) # JWrites(js), Dr("journal differs from the spec's write sequence: " \o e.op))
           \cup FailIf(pr.res # e.res, Dr("result differs from spec: " \o e.op))
           \cup FailIf(Writes(pr.steps) = JWrites(js) /\
                       MemAtWrites(m, pr.steps, 1) # [x \in 1 .. Len(js) |-> [base |-> js[x].mb, height |-> js[x].mh]],
                       Dr("in-memory base/height at the writes differ from spec: " \o e.op))
           \cup FailIf(\E x \in 1 .. Len(js) : js[x].k = "other", Dr("write to a key the spec does not know"))
-     /\ UNCHANGED viol
+     /\ opl' = l
+     /\ UNCHANGED <<cfg, stack, bad, viol>>
 
 \* ------------------------------------------------------------------ A (audit of crash image k)
 ObsAt(e, h) ==
@@ -147,7 +147,6 @@ AuditObs(e, r) ==
 StepA(e) ==
   LET op   == Trace[opl]
       js   == op.journal
-      d    == ApplyJ(cfg, cur, js, curk + 1, e.k)
       rd   == [base |-> e.dbase, height |-> e.dheight]
       rm   == [base |-> e.mbase, height |-> e.mheight]
       hs   == IF cfg.full THEN Dom(cfg) ELSE {h \in ToSet(e.win) : InDom(cfg, h)}
@@ -159,11 +158,11 @@ StepA(e) ==
       isPS == op.op = "PruneStates" \/ (op.op = "ConsPrune" /\ op.a > ob)
       sfrom == IF op.op = "PruneStates" THEN op.a ELSE ob
       sto   == IF op.op = "PruneStates" THEN op.b ELSE op.a
-  IN /\ cur' = d /\ curk' = e.k
+  IN /\ cur' = ApplyJ(cfg, cur, js, curk + 1, e.k) /\ curk' = e.k
      /\ UNCHANGED <<cfg, disk0, mem0, opl, stack>>
      /\ drift' = drift
-          \cup FailIf(\E h \in hs : Proj(cfg, d, h) # ObsAt(e, h), Dr("audit projection differs from the spec's disk"))
-          \cup FailIf("block" \in cfg.chk /\ LoadBSS(d) # rd, Dr("persisted base/height differ from the spec's disk"))
+          \cup FailIf(\E h \in hs : Proj(cfg, cur', h) # ObsAt(e, h), Dr("audit projection differs from the spec's disk"))
+          \cup FailIf("block" \in cfg.chk /\ LoadBSS(cur') # rd, Dr("persisted base/height differ from the spec's disk"))
      \* a failure is reported at the step that introduces it: `bad` holds the (invariant,
      \* class) pairs that already failed on the previous image of this history
      /\ LET now ==
@@ -191,14 +190,14 @@ StepA(e) ==
 \* ------------------------------------------------------------------ Reopen (continue from image k)
 StepReopen(e) ==
   LET js == Journal
-      d  == IF e.k < 0 THEN DiskAtEnd          \* reopened with no operation in progress
-            ELSE IF e.k >= curk THEN ApplyJ(cfg, cur, js, curk + 1, e.k) ELSE ApplyJ(cfg, disk0, js, 1, e.k)
       m  == [base |-> e.mbase, height |-> e.mheight]
-  IN /\ disk0' = d /\ cur' = d /\ curk' = 0 /\ opl' = 0
+  IN /\ cur' = IF e.k < 0 THEN DiskAtEnd          \* reopened with no operation in progress
+               ELSE IF e.k >= curk THEN ApplyJ(cfg, cur, js, curk + 1, e.k) ELSE ApplyJ(cfg, disk0, js, 1, e.k)
+     /\ disk0' = cur' /\ curk' = 0 /\ opl' = 0
      /\ mem0' = m
      /\ bad' = IF e.k < 0 THEN bad ELSE {}     \* `bad` described the image after the last write
      /\ UNCHANGED <<cfg, stack>>
-     /\ drift' = drift \cup FailIf("block" \in cfg.chk /\ LoadBSS(d) # m, Dr("NewBlockStore base/height differ from the spec's disk"))
+     /\ drift' = drift \cup FailIf("block" \in cfg.chk /\ LoadBSS(cur') # m, Dr("NewBlockStore base/height differ from the spec's disk"))
      /\ UNCHANGED viol
 
 \* ------------------------------------------------------------------ Push / Pop (branching histories)
